@@ -247,6 +247,19 @@ impl JitCompiler {
         self.emit_alu32(mem, 0x39, src, dst);
     }
 
+    // Load [base + (imm as u32)] into RAX (LD_ABS / LD_IND). The interpreter adds the immediate
+    // zero-extended while an x86 displacement is sign-extended, so a negative immediate is added
+    // through RCX instead.
+    fn emit_load_packet(&self, mem: &mut JitMemory, size: OperandSize, base: u8, imm: i32) {
+        if imm >= 0 {
+            self.emit_load(mem, size, base, RAX, imm);
+        } else {
+            self.emit_load_imm(mem, RCX, (imm as u32) as i64);
+            self.emit_alu64(mem, 0x01, base, RCX); // add base to RCX
+            self.emit_load(mem, size, RCX, RAX, 0);
+        }
+    }
+
     // Load [src + offset] into dst
     fn emit_load(&self, mem: &mut JitMemory, size: OperandSize, src: u8, dst: u8, offset: i32) {
         let data = match size {
@@ -588,32 +601,32 @@ impl JitCompiler {
                 // BPF_LD class
                 // R10 is a constant pointer to mem.
                 ebpf::LD_ABS_B   =>
-                    self.emit_load(mem, OperandSize::S8,  R10, RAX, insn.imm),
+                    self.emit_load_packet(mem, OperandSize::S8,  R10, insn.imm),
                 ebpf::LD_ABS_H   =>
-                    self.emit_load(mem, OperandSize::S16, R10, RAX, insn.imm),
+                    self.emit_load_packet(mem, OperandSize::S16, R10, insn.imm),
                 ebpf::LD_ABS_W   =>
-                    self.emit_load(mem, OperandSize::S32, R10, RAX, insn.imm),
+                    self.emit_load_packet(mem, OperandSize::S32, R10, insn.imm),
                 ebpf::LD_ABS_DW  =>
-                    self.emit_load(mem, OperandSize::S64, R10, RAX, insn.imm),
+                    self.emit_load_packet(mem, OperandSize::S64, R10, insn.imm),
                 ebpf::LD_IND_B   => {
                     self.emit_mov(mem, R10, R11);                              // load mem into R11
                     self.emit_alu64(mem, 0x01, src, R11);                      // add src to R11
-                    self.emit_load(mem, OperandSize::S8,  R11, RAX, insn.imm); // ld R0, mem[src+imm]
+                    self.emit_load_packet(mem, OperandSize::S8,  R11, insn.imm); // ld R0, mem[src+imm]
                 }
                 ebpf::LD_IND_H   => {
                     self.emit_mov(mem, R10, R11);                              // load mem into R11
                     self.emit_alu64(mem, 0x01, src, R11);                      // add src to R11
-                    self.emit_load(mem, OperandSize::S16, R11, RAX, insn.imm); // ld R0, mem[src+imm]
+                    self.emit_load_packet(mem, OperandSize::S16, R11, insn.imm); // ld R0, mem[src+imm]
                 }
                 ebpf::LD_IND_W   => {
                     self.emit_mov(mem, R10, R11);                              // load mem into R11
                     self.emit_alu64(mem, 0x01, src, R11);                      // add src to R11
-                    self.emit_load(mem, OperandSize::S32, R11, RAX, insn.imm); // ld R0, mem[src+imm]
+                    self.emit_load_packet(mem, OperandSize::S32, R11, insn.imm); // ld R0, mem[src+imm]
                 }
                 ebpf::LD_IND_DW  => {
                     self.emit_mov(mem, R10, R11);                              // load mem into R11
                     self.emit_alu64(mem, 0x01, src, R11);                      // add src to R11
-                    self.emit_load(mem, OperandSize::S64, R11, RAX, insn.imm); // ld R0, mem[src+imm]
+                    self.emit_load_packet(mem, OperandSize::S64, R11, insn.imm); // ld R0, mem[src+imm]
                 }
 
                 ebpf::LD_DW_IMM  => {
